@@ -247,7 +247,7 @@ class BinaryNode(node.Node):
             new_children = [None, None]
         if len(new_children) != 2:
             raise ValueError("Children input must have length 2")
-        return new_children
+        return list(new_children)
 
     def __check_children_loop(self: T, new_children: List[Optional[T]]) -> None:
         """Check child loop
